@@ -21,6 +21,63 @@ from lib import flows
 from lib.units import Inconclusive, McUnit, SeqUnit, Unit, run_h, validate_file
 
 
+def _num(opt):
+    return opt[0] if isinstance(opt, list) and opt and isinstance(opt[0], int) else None
+
+
+def classify(observed, expected, earlier):
+    """Which clause of the property a deviation of the real code touches.  observed/expected: dicts with
+    res/st (expected may be missing); earlier: events of the history before the deviating call."""
+    issued = set()
+    for e in earlier:
+        n = _num(((e.get("res") or {}).get("val")) if isinstance(e.get("res"), dict) else None)
+        if n is not None:
+            issued.add(n)
+    on = _num((observed.get("res") or {}).get("val"))
+    if on is not None and on in issued:
+        return "REUSE: number %d had already been returned earlier in this history" % on
+    if on is not None and issued and on < max(issued):
+        return "ORDER: number %d is below the earlier returned %d" % (on, max(issued))
+    if not expected:
+        return "deviation from the reference behaviour"
+    om, em = (observed.get("st") or {}).get("mark"), (expected.get("st") or {}).get("mark")
+    if isinstance(om, list) and isinstance(em, list) and om != em:
+        o, e = (_num(om) if om else 0), (_num(em) if em else 0)
+        if o is not None and e is not None and o >= 0:
+            if o < e:
+                return ("MARK-BEHIND: the stored mark %s is below what has been leased/handed out (%s): a later "
+                        "incarnation hands those numbers out again (no-reuse clause)" % (om, em))
+            return ("WASTE: the stored mark %s is ahead of %s: %d number(s) are skipped, nothing is reused "
+                    "(clause 'a crash wastes at most one interval, a clean Release none')" % (om, em, o - e))
+        return "MARK-CORRUPT: stored mark unreadable or absurd (%s, expected %s)" % (om, em)
+    en = _num((expected.get("res") or {}).get("val"))
+    if on is not None and en is not None and on > en:
+        return "WASTE: returned %d where %d was due: numbers skipped, nothing reused" % (on, en)
+    return "deviation from the reference behaviour (result/crash outcome)"
+
+
+def annotate(ctx, unit_name):
+    """append the classification to this unit's violations (in memory and in the replay files)"""
+    for v in ctx.violations:
+        if v["unit"] != unit_name or "[class:" in v["what"]:
+            continue
+        try:
+            with open(v["replay"]) as fh:
+                data = json.load(fh)
+            if data.get("kind") == "path":
+                m = data["mismatch"]
+                cls = classify(m["observed"], (m.get("expected") or [None])[0], m["path"][1:-1])
+            else:
+                tr = data["trace"]
+                cls = classify(tr[-1], (data.get("expected") or [None])[0], tr[:-1])
+            v["what"] += " [class: %s]" % cls
+            data["what"], data["class"] = v["what"], cls
+            with open(v["replay"], "w") as fh:
+                json.dump(data, fh, indent=1)
+        except Exception as e:  # classification is a convenience, never a verdict
+            v["what"] += " [class: unavailable (%s)]" % e
+
+
 class SequenceUnit(SeqUnit):
     """SeqUnit whose thorough tier uses separate cfgs for the exhaustive run (bigger bounds, full view) and
     for the exported transition system (reduced view)."""
@@ -40,8 +97,11 @@ class SequenceUnit(SeqUnit):
             dead = [k for k, (d, t) in r.coverage.items() if t == 0 and not k.endswith(".Init")]
             if dead:
                 raise Inconclusive("vacuity: actions never taken in %s: %s" % (self.module, dead))
-        self.run_lts(ctx, sd)
-        self.run_trace(ctx, sd)
+        try:
+            self.run_lts(ctx, sd)
+            self.run_trace(ctx, sd)
+        finally:
+            annotate(ctx, self.name)
 
 
 class ConcUnit(Unit):
@@ -63,7 +123,10 @@ class ConcUnit(Unit):
         p = run_h(ctx, ["c07conc", "-seed", str(ctx.seed), "-runs", str(runs), "-out", tr])
         if p.returncode != 0:
             raise Inconclusive("concurrent driver died: %s" % (p.stderr or p.stdout)[-2000:])
-        validate_file(ctx, self, ctx.spec("sequence"), "Sequence", tr)
+        try:
+            validate_file(ctx, self, ctx.spec("sequence"), "Sequence", tr)
+        finally:
+            annotate(ctx, self.name)
         ctx.bump("concurrent_runs_on_real_code", runs)
 
     def replay(self, ctx, data):
